@@ -79,6 +79,14 @@ theorem xml_survivor_links (x : Bytes) (n c : Node) (h : decode x = .node n) (hc
   rw [linksOK_survivor]
   exact within_links (mem_preorder_within n c hc) (decode_links true x n h)
 
+/-- walking down the first-child chain of a returned tree by assigning to the only handle
+    (`e = e.child(0)`, safe since `NodeBase::operator=` acquires before it releases, commit e5e901a) ends on a
+    node of that tree; what the handle then shows has a null parent and intact links below it -/
+theorem xml_descend_links (x : Bytes) (n : Node) (h : decode x = .node n) :
+    descend n ∈ preorder n ∧ (survivor (descend n)).parent = none ∧
+      ∀ e, Within e (survivor (descend n)) → ∀ d ∈ children e, d.parent = some e.id :=
+  ⟨descend_mem_preorder n, xml_survivor_links x n (descend n) h (descend_mem_preorder n)⟩
+
 /-- the identities of the nodes of a returned tree (`ids`: the node, then its descendants in document
     order) are pairwise distinct — so "parent = identity of the container" in `xml_parent_links` names
     exactly one node of the tree -/
